@@ -6,6 +6,9 @@ import json, os, subprocess, sys
 root = "/verif"
 props = [json.loads(l) for l in open(f"{root}/properties.jsonl")]
 checks = json.load(open(f"{root}/tools/checks.json"))
+import glob
+for f in sorted(glob.glob(f"{root}/tools/checks.d/*.json")):
+    checks.update(json.load(open(f)))
 notc = json.load(open(f"{root}/tools/not_claimed.json")) if os.path.exists(f"{root}/tools/not_claimed.json") else {}
 hooks_commits = json.load(open(f"{root}/tools/hook_commits.json"))
 out_checks, na = [], []
